@@ -71,6 +71,9 @@ type clientState struct {
 
 // Run executes one Case.
 type Run struct {
+	compactGone map[string]map[uint64]bool // versions some compaction dropped
+	compactKey  map[int64]*compactKeyState // per sub-compaction goroutine: the key being iterated
+	subcompactD map[int64]uint64           // per sub-compaction goroutine: its discard timestamp
 	encSt1     *recState
 	encNeedles map[string]string
 	encKeys    []string
@@ -434,6 +437,27 @@ func (r *Run) onEvent(gid int64, kind string, a, b uint64, key, val []byte) {
 		if a > r.maxDiscardTs {
 			r.maxDiscardTs = a
 		}
+		// a new sub-compaction starts in this goroutine: close the previous key's record
+		r.compactKeyDoneLocked(gid)
+		r.subcompactD[gid] = a
+		r.mu.Unlock()
+	case "compact.entry":
+		// local retention oracle (C13): what ONE compaction does with the versions of a key
+		// it iterates over must follow the retention rule, whatever other levels still hold
+		r.mu.Lock()
+		st := r.compactKey[gid]
+		if st == nil || st.key != string(key) {
+			r.compactKeyDoneLocked(gid)
+			st = &compactKeyState{key: string(key)}
+			r.compactKey[gid] = st
+		}
+		st.ents = append(st.ents, compactEnt{ver: a, flags: b})
+		if b&1 == 0 {
+			if r.compactGone[string(key)] == nil {
+				r.compactGone[string(key)] = map[uint64]bool{}
+			}
+			r.compactGone[string(key)][a] = true
+		}
 		r.mu.Unlock()
 	case "compact.filled":
 		r.setPhase("compaction")
@@ -452,6 +476,11 @@ func (r *Run) onEvent(gid int64, kind string, a, b uint64, key, val []byte) {
 			r.probe("compact_split_subcompactions")
 		}
 	case "compact.done":
+		r.mu.Lock()
+		for g := range r.compactKey { // the sub-compactions of this compaction have ended
+			r.compactKeyDoneLocked(g)
+		}
+		r.mu.Unlock()
 		r.setPhase("")
 		r.probe("compaction_done")
 		if b&0xffff >= 2 {
@@ -500,6 +529,109 @@ func (r *Run) onEvent(gid int64, kind string, a, b uint64, key, val []byte) {
 	case "flush.done":
 		r.probe("memtable_flushed")
 	}
+}
+
+type compactEnt struct {
+	ver   uint64
+	flags uint64 // bit0 kept, bit1 deleted-or-expired, bit2 discard-earlier, bit3 merge entry
+}
+
+type compactKeyState struct {
+	key  string
+	ents []compactEnt // in iteration order: newest version first
+}
+
+// compactKeyDoneLocked evaluates the finished key of one sub-compaction goroutine against
+// the retention rule: every version above the discard timestamp and every merge entry is
+// kept; at or below it the newest NumVersionsToKeep versions are kept, stopping at (and
+// after) a deleted/expired version or one with the discard-earlier bit. Keeping more is
+// fine; dropping one of these is a violation.
+func (r *Run) compactKeyDoneLocked(gid int64) {
+	st := r.compactKey[gid]
+	delete(r.compactKey, gid)
+	if st == nil || r.viol != nil {
+		return
+	}
+	D, ok := r.subcompactD[gid]
+	if !ok {
+		return
+	}
+	N := r.c.Cfg.NumVersionsToKeep
+	count, stop := 0, false
+	for _, e := range st.ents {
+		kept := e.flags&1 != 0
+		must := false
+		switch {
+		case e.flags&8 != 0: // merge entries are never dropped
+			must = true
+		case e.ver > D:
+			must = true
+		case stop:
+		default:
+			count++
+			if e.flags&2 != 0 {
+				stop = true // the marker itself may go when nothing lies below
+			} else {
+				must = true
+				if e.flags&4 != 0 || count >= N {
+					stop = true
+				}
+			}
+		}
+		if must && !kept {
+			r.probeLocked("compaction_retention_checked")
+			r.violateLocked([]string{"C13", "C12"}, "compaction-dropped-retained-version", "a compaction (discard timestamp %d, NumVersionsToKeep=%d) dropped %q@%d, which its retention rule keeps; versions it iterated over, newest first (ver:flags, bit0 kept, bit1 deleted/expired, bit2 discard-earlier, bit3 merge): %s", D, N, st.key, e.ver, fmtCompactEnts(st.ents))
+			return
+		}
+	}
+	r.probeLocked("compaction_retention_checked")
+	// A dropped delete/expired marker must not uncover anything: the newest version of
+	// the key below the marker that still exists OUTSIDE this compaction (it is not among
+	// the versions iterated here and no earlier compaction dropped it) must not be a live
+	// value. (Managed mode is excluded: non-monotonic timestamps, see the known finding.)
+	if r.c.Cfg.Managed {
+		return
+	}
+	inThis := map[uint64]bool{}
+	for _, e := range st.ents {
+		inThis[e.ver] = true
+	}
+	tnow := now()
+	for _, e := range st.ents {
+		if e.flags&1 != 0 {
+			break // a newer version of the key was kept: it shadows whatever lies below
+		}
+		if e.flags&2 == 0 || e.ver > D {
+			continue
+		}
+		vs := r.model.Keys[st.key]
+		for i := len(vs) - 1; i >= 0; i-- {
+			v := &vs[i]
+			if v.Ts >= e.ver || !r.model.live(v) || inThis[v.Ts] || r.compactGone[st.key][v.Ts] {
+				continue
+			}
+			if c := r.model.Commits[v.Commit]; !c.Acked && r.inFlight[c.Ts] {
+				continue // not applied yet
+			}
+			// newest surviving version below the marker, outside this compaction
+			if !v.Del && !expired(v.Exp, tnow) {
+				r.probeLocked("tombstone_drop_checked")
+				r.violateLocked([]string{"C12", "C33"}, "tombstone-dropped-over-surviving-version", "a compaction (discard timestamp %d) dropped the delete/expired marker %q@%d although the older version %q@%d still exists outside the tables it compacted (it did not iterate over it and no earlier compaction dropped it): the key becomes visible again", D, st.key, e.ver, st.key, v.Ts)
+				return
+			}
+			break
+		}
+		r.probeLocked("tombstone_drop_checked")
+		break // only the first dropped marker of the key matters
+	}
+}
+
+func fmtCompactEnts(es []compactEnt) string {
+	var sb strings.Builder
+	for _, e := range es {
+		fmt.Fprintf(&sb, "%d:%d ", e.ver, e.flags)
+	}
+	return sb.String()
 }
 
 type wmState struct {
@@ -1483,7 +1615,7 @@ func executeWith(t *testing.T, c *Case, prof *Profile, keepHist bool, pre func(*
 		return
 	}
 	defer os.RemoveAll(dir)
-	r := &Run{c: c, prof: prof, dir: filepath.Join(dir, "d"), model: NewModel(), byGid: map[int64]*clientState{}, inFlight: map[uint64]bool{}, keepHist: keepHist, wms: map[string]*wmState{}, curRec: map[int64]*CommitRec{}, subByGid: map[int64]*extraState{}, seqSeen: map[string]map[uint64]string{}, usedTs: map[uint64]bool{}, gcMoved: map[string]map[uint64]bool{}, droppedMarkers: map[string][]uint64{}}
+	r := &Run{c: c, prof: prof, dir: filepath.Join(dir, "d"), model: NewModel(), byGid: map[int64]*clientState{}, inFlight: map[uint64]bool{}, keepHist: keepHist, wms: map[string]*wmState{}, curRec: map[int64]*CommitRec{}, subByGid: map[int64]*extraState{}, seqSeen: map[string]map[uint64]string{}, usedTs: map[uint64]bool{}, gcMoved: map[string]map[uint64]bool{}, droppedMarkers: map[string][]uint64{}, compactKey: map[int64]*compactKeyState{}, subcompactD: map[int64]uint64{}, compactGone: map[string]map[uint64]bool{}}
 	r.vdir = r.dir
 	if c.Cfg.SeparateValueDir {
 		r.vdir = filepath.Join(dir, "v")
